@@ -5,6 +5,7 @@ TRANSPARENT_METHODS = {
     "std::ops::Deref::deref", "std::convert::AsRef::as_ref", "std::clone::Clone::clone",
     "oxidd_core::util::Borrowed::<'a, E>::into_inner", "std::ops::DerefMut::deref_mut",
     "oxidd_core::util::Substitution::map", "oxidd_core::util::substitution::Substitution::map",
+    "oxidd_core::Edge::with_tag_owned", "oxidd_core::Edge::with_tag",
 }
 
 
